@@ -38,6 +38,9 @@ func c11(c *q.Ctx) {
 		c.Gate(vp, "ACLValidatorFactory.GetACLValidator", q.ToSuccess(), q.Opt{K1Only: true})
 		c.ArgIs(vp, "ACLValidator.Validate", 0, "ptree.GetPermTreeList(p0)#0[#down]", 1, "nodes are evaluated leaves first (reverse BFS order)")
 		node := "ptree.GetPermTreeList(p0)#0[#down]"
+		// the validator that judges a node is the one built for THAT node's rule (threshold, AK sets, ...), not one
+		// remembered from another node of the tree
+		c.ArgIs(vp, "ACLValidator.Validate", -1, "rule.(*ACLValidatorFactory).GetACLValidator(*,"+node+".ACL.Pm.Rule)#0", 1, "each node is judged by the validator of its own rule")
 		// a member whose own rule is not satisfied merely contributes nothing: it is marked failed and the evaluation
 		// goes on with the next node (monotonicity: adding a signer never turns acceptance into rejection)
 		c.Then(vp, q.Target{Name: "a validator verdict", Instr: func(i ssa.Instruction) bool {
